@@ -272,12 +272,33 @@ atom("dict_update_selfref", "r = {1: 2}\nr.update({3: len(r)})\n", "r")
 atom("dictcomp_assign_selfref", "r = {w: 1 for w in xs}\nr[9] = len(r)\n", "r")
 atom("listcomp_append_selfref", "r = [w for w in xs]\nfor u in ys:\n    r.append(u + len(r))\n", "r")
 
+# ---- size families: rules with numeric thresholds on block sizes (early_continue, early_return, swap_if_else,
+# remove_redundant_else, simplify_if_control_flow, breakout_common_code_in_ifs) see every (body size, else size) around
+# their thresholds (added after the seeded change C02-early-continue-drops-else, which needed a body of >= 5 statements
+# together with an else of 1-2 statements)
+def _notes(prefix, n, indent):
+    return "".join("%snote(%s + %d)\n" % (" " * indent, prefix, j) for j in range(n))
+
+
+for _b in (1, 2, 3, 4, 5, 6, 7):
+    for _e in (0, 1, 2, 3):
+        _else = ("    else:\n" + _notes("-i", _e, 8)) if _e else ""
+        atom("size_loop_if[b=%d,e=%d]" % (_b, _e), "for i in xs:\n    if i > 1:\n" + _notes("i", _b, 8) + _else, "", ["size"])
+        _else = ("    else:\n" + _notes("-c", _e, 8)) if _e else ""
+        atom("size_fn_if_return[b=%d,e=%d]" % (_b, _e),
+             "def g(c):\n    if c > 1:\n" + _notes("c", _b, 8) + "        return c\n" + _else + "    return -c\na = (g(1), g(2))\n", "a", ["size"])
+        if _e:
+            atom("size_if_else[b=%d,e=%d]" % (_b, _e),
+                 "def g(c):\n    if not c:\n" + _notes("c", _b, 8) + "    else:\n" + _notes("-c", _e, 8) + "    return 0\na = (g(0), g(3))\n", "a", ["size"])
+
 CORE = [n for n, a in ATOMS.items() if "core" in a["tags"]]
 
 CONTEXTS = ("module", "function", "loop", "method")
 
 
 def contexts_of(name):
+    if "size" in ATOMS[name]["tags"]:
+        return ("module", "function")
     return ("module", "loop") if "module_only" in ATOMS[name]["tags"] else CONTEXTS
 
 
@@ -295,8 +316,8 @@ def program_space(tier):
     if tier == "thorough":
         coreset = set(core)
         for a in ATOMS:
-            if a in coreset:
-                continue
+            if a in coreset or "size" in ATOMS[a]["tags"]:
+                continue  # size families are explored alone (their point is the threshold, not the interaction)
             for b in core:
                 for pair in ((a, b), (b, a)):
                     ctxs = ("module",) if "module_only" in ATOMS[a]["tags"] else ("module", "function")
